@@ -1562,6 +1562,12 @@ class Lowering:
             if len(args) == 0:
                 return '((%s)0)' % mapped
             if len(args) == 1:
+                # cfg.move_nulls: {type regex: MACRO}: move construction of a modelled smart pointer from a
+                # non-temporary leaves the source null: MACRO(&source)
+                for pat, mac in self.cfg.get('move_nulls', {}).items():
+                    if re.fullmatch(pat, self.strip_cvref(t)) and '&&' in ctor_t and not self.is_temporary(args[0]) \
+                            and re.fullmatch(pat, self.strip_cvref(ty(args[0]))):
+                        return '%s(&%s)' % (mac, self.expr(args[0], ctx))
                 return '((%s)%s)' % (mapped, self.expr(args[0], ctx))
             raise Unsupported('construction of mapped scalar type %s with %d args' % (t, len(args)))
         for pat, ct in self.typemap.items():
